@@ -20,6 +20,7 @@ import (
 	"os"
 	"path/filepath"
 	"sort"
+	"strings"
 	"sync"
 	"sync/atomic"
 	"time"
@@ -136,7 +137,7 @@ func runSequence(r *vf.Run, work string, idx int) {
 	} else {
 		r.Count("sequences_sync_remove", 1)
 	}
-	g := &snapdrv.Gen{Rng: rng, P: snapdrv.Profile{Names: rng.Range(4, 10), Reopen: true, Collisions: true, EmptyTarget: true, RestoreFails: true}}
+	g := &snapdrv.Gen{Rng: rng, P: snapdrv.Profile{Names: rng.Range(4, 10), Reopen: true, Collisions: true, EmptyTarget: true, RestoreFails: true, InjectAtMount: true}}
 	for i := 0; i < length && d.Aborted == "" && nviol < 5; i++ {
 		var mounted []string
 		for mp := range d.FS.Live() {
@@ -154,6 +155,9 @@ func runSequence(r *vf.Run, work string, idx int) {
 		d.Step(len(ops)-1, fin)
 	} else {
 		r.Count("sequences_aborted", 1)
+		if strings.HasPrefix(d.Aborted, "watchdog") {
+			r.Inconclusive("sequential: " + d.Aborted)
+		}
 		r.Distinct("abort_reasons", oneWord(d.Aborted))
 	}
 	d.Close()
